@@ -318,27 +318,33 @@ pub fn make_module() -> KMap {
                     let l = l.clone();
                     let value = value.clone();
 
-                    // The comparisons are made before the list is borrowed mutably:
-                    // an element can be the list itself, and an overridden `==` can access it.
-                    let entries = l.data().clone();
-                    let mut retained = ValueVec::with_capacity(entries.len());
-                    for x in entries {
+                    let mut error = None;
+                    l.data_mut().retain(|x| {
+                        if error.is_some() {
+                            return true;
+                        }
                         match ctx
                             .vm
                             .run_binary_op(BinaryOp::Equal, x.clone(), value.clone())
                         {
-                            Ok(KValue::Bool(true)) => retained.push(x),
-                            Ok(KValue::Bool(false)) => {}
+                            Ok(KValue::Bool(true)) => true,
+                            Ok(KValue::Bool(false)) => false,
                             Ok(unexpected) => {
-                                return unexpected_type(
+                                error = Some(unexpected_type(
                                     "a Bool from the equality comparison",
                                     &unexpected,
-                                );
+                                ));
+                                true
                             }
-                            Err(e) => return Err(e),
+                            Err(e) => {
+                                error = Some(Err(e));
+                                true
+                            }
                         }
+                    });
+                    if let Some(error) = error {
+                        return error;
                     }
-                    *l.data_mut() = retained;
                     l
                 }
                 (instance, args) => {
